@@ -387,7 +387,16 @@ type TURef struct {
 
 func (t *TURef) UnmarshalText(b []byte) error { t.S = []string{string(b)}; return nil }
 
+// KS: a map KEY type that contains a pointer (comparable: the pointer's identity is part of the key)
+type KS struct {
+	K string
+	P *int
+}
+
 type HCfg struct {
+	MK     map[KS]int             // struct keys containing pointers,
+	MI     map[interface{}]string // interface keys holding pointers / structs with pointers,
+	MA     map[[1]*int]int        // array keys of pointers: the copier copies keys like values
 	T      TURef
 	PT     *TURef
 	Name   string
@@ -430,6 +439,53 @@ func hcfgFieldsTerm() string {
 	return strings.ReplaceAll(rty.FieldsTerm(reflect.TypeOf(HCfg{})), tu, "(TTextU "+coqfmt.Str("main.TURef")+" true)")
 }
 
+// fillKeyMaps populates the maps with reference-holding keys of one input (the defaults or a
+// source value): fresh pointees with distinct contents, and pointers taken from `pool`
+// (pointers other inputs hold as well, as keys or as values).
+func fillKeyMaps(r *coqfmt.Rng, v reflect.Value, pool *[]*int, base int) {
+	fresh := func(j int) *int {
+		x := new(int)
+		*x = base + j
+		if len(*pool) < 6 {
+			*pool = append(*pool, x)
+		}
+		return x
+	}
+	pick := func(j int) *int {
+		if len(*pool) > 0 && r.Chance(1, 2) {
+			return (*pool)[r.Intn(len(*pool))]
+		}
+		return fresh(j)
+	}
+	if f := v.FieldByName("MK"); f.IsValid() {
+		f.Set(reflect.Zero(f.Type()))
+		if r.Chance(2, 3) {
+			m := map[KS]int{}
+			for j, k := 0, 1+r.Intn(2); j < k; j++ {
+				m[KS{K: fmt.Sprintf("k%d", j), P: pick(j)}] = j
+			}
+			f.Set(reflect.ValueOf(m))
+		}
+	}
+	if f := v.FieldByName("MI"); f.IsValid() {
+		f.Set(reflect.Zero(f.Type()))
+		if r.Chance(2, 3) {
+			m := map[interface{}]string{"s": "plain"}
+			m[pick(10)] = "ptr"
+			if r.Chance(1, 2) {
+				m[KS{K: "in-iface", P: pick(11)}] = "struct"
+			}
+			f.Set(reflect.ValueOf(m))
+		}
+	}
+	if f := v.FieldByName("MA"); f.IsValid() {
+		f.Set(reflect.Zero(f.Type()))
+		if r.Chance(1, 2) {
+			f.Set(reflect.ValueOf(map[[1]*int]int{{pick(20)}: 1}))
+		}
+	}
+}
+
 // genHistory builds, from the case's PRNG state alone, the caller's defaults and
 // every value the three sources (one static, two watching: A and B) will ever return or
 // report (3 + updates values of the pointerified type), with slots of later values aliased
@@ -440,6 +496,11 @@ func genHistory(in input) (*HCfg, []reflect.Value, int, []string) {
 	cfg := &HCfg{hidden: 7}
 	rty.GenValue(r, reflect.ValueOf(cfg).Elem(), rty.VOpts{NilNum: 1, NilDen: 4}, 0)
 	emptyWithCap(r, []reflect.Value{reflect.ValueOf(cfg).Elem()}, 1, 4)
+	var keyPool []*int
+	if cfg.P != nil {
+		keyPool = append(keyPool, cfg.P) // also used as a map key component
+	}
+	fillKeyMaps(r, reflect.ValueOf(cfg).Elem(), &keyPool, 1000)
 	inputs := []reflect.Value{reflect.ValueOf(cfg)} // pointers to every input value
 	pt := ptrify.Pointerify(reflect.TypeOf(HCfg{}), reflect.ValueOf(cfg).Elem())
 	planted := 0
@@ -447,6 +508,7 @@ func genHistory(in input) (*HCfg, []reflect.Value, int, []string) {
 		p := reflect.New(pt)
 		rty.GenValue(r, p.Elem(), rty.VOpts{NilNum: r.Intn(4), NilDen: 4}, 0)
 		emptyWithCap(r, []reflect.Value{p.Elem()}, 1, 4)
+		fillKeyMaps(r, p.Elem(), &keyPool, 2000+100*i)
 		roots := []reflect.Value{}
 		for _, q := range inputs {
 			roots = append(roots, q.Elem())
